@@ -125,6 +125,12 @@ class SemantivaOrchestrator(ABC):
         resolved_spec: Sequence[dict[str, Any]] = pipeline_spec
         if canonical is None:
             canonical, resolved_spec = build_canonical_spec(pipeline_spec)
+        else:
+            # Enrichment below must never leak into the caller-owned spec
+            canonical = {
+                **canonical,
+                "nodes": [dict(node) for node in canonical.get("nodes", [])],
+            }
 
         run_id: str | None = None
         pipeline_id: str | None = None
